@@ -61,8 +61,9 @@ CHECKS = {
              "branch is an executable model too (Model/Nusselt.v, correspondence at 1e-9 on touching pairs and on whole "
              "rooms with NO form-factor value taken from /repo): translation and uniform-scaling invariance, the sample "
              "grid of a rectangle, assembly (invisible pairs zero, reciprocity by area ratio) for the fully computed "
-             "matrix. NOT carried: F <= 1, the 2.5% closure (quadrature accuracy), rotation invariance and bounds of the "
-             "Nusselt branch.",
+             "matrix; the composed end-to-end model (Model/Full.v) computes its whole form-factor matrix itself "
+             "(C05_room_form_factors_computed). NOT carried: F <= 1, the 2.5% closure (quadrature accuracy), rotation "
+             "invariance and bounds of the Nusselt branch.",
         note=TRUST + "ln/sqrt/abs abstract (LnLaws/SqrtLaws instantiated over R); np.linalg.inv of the 3x3 Vandermonde "
              "matrix is modelled by its closed form (compared numerically); accuracy is C06 (not claimed).",
         technique="Coq proof over ordered field + extracted-model correspondence", ref="5/C05"),
@@ -105,9 +106,14 @@ CHECKS = {
              "for shoebox rooms, and for triangles on axis planes in general position; for any polygon on an axis "
              "plane in general position it is reduced to a tolerance-free crossing number; for general polygons it is NOT proved and is refuted as a universal statement by a Qc "
              "witness (ray through a pointed vertex: known finding C07/ray_through_vertex). Correspondence against an "
-             "exact rational segment/polygon oracle.",
+             "exact rational segment/polygon oracle. For the composed end-to-end model: the patch surfaces of a room "
+             "with axis-aligned rectangular walls are axis-aligned rectangles (derived from the tiling theorems), and "
+             "for centroids in general position two patches exchange energy iff no patch rectangle blocks the segment "
+             "between their centroids (C07_room_visibility_geometric); a patch never exchanges energy with a patch "
+             "behind it or in its own plane (C07_room_behind_hidden, C07_room_coplanar_hidden).",
         note=TRUST + "Winding-number correctness for non-rectangular or rotated surfaces is validated by differential "
-             "testing only.",
+             "testing only. General position of the centroids with respect to the other patches' rectangles is a "
+             "hypothesis of the room theorem.",
         technique="Coq proof over ordered field + extracted-model correspondence + exact-rational oracle", ref="5/C07"),
     "C19": dict(
         text="Proof: the Kang list model's order-(k+1) histogram is the stated sum over the patches of all other walls "
